@@ -181,3 +181,17 @@ func TestC19_FirstUse(t *testing.T) {
 	st.Assume = append(st.Assume, "thread schedules are whatever the Go scheduler produces; each process gives one sample of the first-use window")
 	checkRapid(t, st, genFirstUseCase, runFirstUse)
 }
+
+// C19 (iii) — connections of one process used one after another on one prefix: no cross-talk
+// through process-wide state. The multi-writer runner (every writer is a connection of this
+// process) with node caches on, starting with the "content returns" pattern: a node object
+// written by one connection, deleted by its vacuum, and needed again by another connection.
+func init() { register("TestC19_Sequential", runMW) }
+
+func TestC19_Sequential(t *testing.T) {
+	st := newStats(t, "C19", "TestC19_Sequential", "2-3 connections of one process on one bucket prefix, single-node trees, node_cache_entries 3 or 1000 on every table, run strictly one after another by the multi-writer runner: the history starts with INSERT of a row by connection 0, DELETE of it, s3db_vacuum with the year-2100 cutoff (the node object is deleted from the bucket), then the byte-identical INSERT through connection 0 or 1, then fresh observers; then a generated history of statements, transactions, refreshes and vacuums; every connection's rows and every merged observer must equal the reference model: a table's result may not depend on what another connection of the process did other than through the bucket; non-trivial as for C01")
+	g := vacGen("c09")
+	g.returnPattern = 1
+	g.maxSteps = 12
+	checkRapid(t, st, func(rt *rapid.T) MWCase { return genMWCase(rt, g) }, runMW)
+}
